@@ -65,12 +65,12 @@ def aimed():
                 "quote": {"content": "block+", "group": "block"},
                 "section": {"content": "block+", "group": "block", "marks": "em"},
                 "text": {"inline": True}}, "marks": {"em": {}, "strong": {}}}), "marked-blocks"),
-            # `compute_wrapping` stops when the last wrapper found accepts the target as *first* child (`pair` for `item`, `item` for
-            # `p` via `sec`), `Transform.wrap` wants every wrapper to accept the next one as its only child
+            # `compute_wrapping` stops when the last wrapper found accepts the target as *first* child (`pair` for `cell`),
+            # `Transform.wrap` wants every wrapper to accept the next one as its only child (`box` for `item` does)
             schemas.SchemaInfo(Schema({"nodes": {
                 "doc": {"content": "block+"}, "p": {"content": "text*", "group": "block"},
-                "pair": {"content": "item item", "group": "block"}, "item": {"content": "(p | sec)+"},
-                "sec": {"content": "p p+"},
+                "box": {"content": "item+", "group": "block"}, "item": {"content": "(p | sec)+"}, "sec": {"content": "p p+"},
+                "pair": {"content": "cell cell", "group": "block"}, "cell": {"content": "p+"},
                 "text": {"inline": True}}, "marks": {"em": {}}}), "wrap-first-child"),
         ]
     return _AIMED
